@@ -578,6 +578,14 @@ try:
     elif op[0] == "grow":
         b.grow(op[1])
         if b.capacity != cap0 + op[1]: fail("capacity after grow")
+        def norm(iv):
+            out = []
+            for s, e in sorted((s, e) for s, e in iv if e > s):
+                if out and s <= out[-1][1]: out[-1][1] = max(out[-1][1], e)
+                else: out.append([s, e])
+            return out
+        if norm([(c.start, c.end) for c in b.chunks]) != norm(list(free_before) + [(cap0, cap0 + op[1])]):
+            fail(f"free list after grow {{[(c.start, c.end) for c in b.chunks]}} is not the free list before {{list(free_before)}} plus the new area [{{cap0}},{{cap0 + op[1]}})")
     elif op[0] == "coalesce":
         o, s1, s2, order = op[1:]
         if order == 0: b.free(o, s1); b.free(o + s1, s2)
